@@ -442,5 +442,17 @@ def run(rep: Report, tier: str) -> None:
                                 f"exists_in(DS_1 ids {_lids}, DS_2 ids {_rids}) is written as a JOIN with DS_2 on {sorted(_keys)}: DS_2 has several datapoints per value of those keys "
                                 f"(its identifiers are {_rids}), so every matching left datapoint is returned once per match - duplicate identifiers in the result"))
     rep.floor("R10.7 shapes", _n7, 3)
+    # ---- R10.10: timeshift on a Time_Period identifier writes a well-formed period (shared with C08 R08.3) ----
+    rep.rule("R10.10", "vtl_tp_shift evaluated with DuckDB integer semantics for every period number and every shift in -60..60: the shifted value is a period of the "
+                       "same frequency with its number inside 1..limit (a Time_Period identifier of the result is neither malformed nor NULL)")
+    from sa import sqlx as _sqlx10
+    from sa.checks.c08 import shift_cells as _shift_cells, sql_period_limits as _sql_period_limits
+    _macros10 = {k.lower(): v for k, v in _sqlx10.load_macros(P).items()}
+    _shift_cells(P, rep, "R10.10", _macros10, _sql_period_limits(_macros10)[2])
+    # ---- R10.11: analytic validators leave the operand's components alone (shared with C12) ----
+    rep.rule("R10.11", "no validation method of an analytic operator mutates an object reachable from its operands: the operand is the dataset stored for later statements, "
+                       "re-typing one of its components in place makes a later statement's declared types disagree with the data")
+    from sa.checks.c12 import operand_mutations as _operand_mutations
+    _operand_mutations(P, rep, "R10.11", ("vtlengine.Operators.Analytic", "vtlengine.Operators.Aggregation", "vtlengine.Operators.Time"), floor=3)
     rep.assumptions = ["structure objects are changed only through attribute stores / dict mutation of .components (no setattr/__dict__ tricks: none exist in the package)",
                        "values, uniqueness and nullability of the DATA are produced by DuckDB and are not decided here"]
